@@ -288,10 +288,12 @@ func (hs *clientHandshakeState) handshake() error {
 		if _, err = c.flush(); err != nil {
 			return err
 		}
-		if err = hs.createNewSession(); err != nil {
+		if err = hs.readFinished(c.serverFinished[:]); err != nil {
 			return err
 		}
-		if err = hs.readFinished(c.serverFinished[:]); err != nil {
+		// 只有在验证了服务端的 Finished 消息之后才缓存新会话：
+		// 握手以致命错误结束的会话不得被缓存，更不得在之后的连接中被重用。
+		if err = hs.createNewSession(); err != nil {
 			return err
 		}
 	}
